@@ -9,17 +9,17 @@ From Coq Require Import List Arith NArith ZArith Bool Lia.
 From Verif Require Import Model.Redial Proofs.RedialProofs Proofs.RedialLiveProofs Proofs.RedialReaderProofs.
 Import ListNotations.
 
-(* Calls in flight at the loss complete with connection-closed: when the disconnecting
-   reader's pass over the n calls tabled at its start completes, every one of them that was
-   waiting for a reply is done with RClosed, none is left waiting, none was skipped while
-   still inside AsyncCall. *)
+(* Calls in flight at the loss complete with connection-closed: when either cancel pass of the
+   disconnecting reader (the one before the wait for the handlers, or the one after) over the
+   n calls tabled at its start completes, every one of them that was waiting for a reply is
+   done with RClosed, none is left waiting, none was skipped while still inside AsyncCall. *)
 Theorem C13_inflight_at_loss_complete_with_conn_error : forall s i c x n,
-  nth_error (readers s) i = Some (c, RWantMu x n) ->
+  nth_error (readers s) i = Some (c, RWantMu1 x n) \/ nth_error (readers s) i = Some (c, RWantMu x n) ->
   existsb holds_mu (firstn n (calls s)) = false ->
   forall k cl, k < n -> nth_error (calls s) k = Some cl ->
     nth_error (calls (reader_step s i)) k = Some (cancelled cl) /\
     (forall c', c_pc (cancelled cl) <> CAwait c') /\ holds_mu cl = false.
-Proof. exact d4_lemma. Qed.
+Proof. exact d4_both_lemma. Qed.
 Print Assumptions C13_inflight_at_loss_complete_with_conn_error.
 
 (* Same session, same id: whenever the session is Ok a user-assigned id is in place ... *)
@@ -183,7 +183,7 @@ Print Assumptions C13_successful_redial_starts_reader.
 (* Non-vacuity: a plain loss followed by a reader-triggered redial on the second attempt. *)
 Example C13_example :
   let s := run (init 3 true [VU; VA] VA)
-               [EvCut; EvReader 0; EvReader 0; EvReader 0; EvReader 0; EvReader 0; EvReader 0;
+               [EvCut; EvReader 0; EvReader 0; EvReader 0; EvReader 0; EvReader 0; EvReader 0; EvReader 0;
                 EvAcquire (OwR 0); EvRound; EvRound; EvRound; EvRound; EvRound] in
   status_ s = SOk /\ id s = IdUser /\ rounds s = [(2, true)] /\ hooks s = [(true, VA)] /\
   index s = [IdUser] /\ quiescent s = true.
